@@ -216,7 +216,7 @@
             range.start >= range.end ==> final(vec)@ == old(vec)@,
     @start
         proof { T::law_obeys_eq(); value.law_eq_refl(); }
-    @before 2 `return;`
+    @before 2 `stmt:return`
         proof {
             let s = old(vec)@;
             let n = s.len() - 1;
